@@ -70,7 +70,16 @@ def main():
                 sh("git", "-C", REPO, "clean", "-fd", "ipa-core/src")
         row["detected_by"] = [p for p, v in row["checks"].items() if v["exit"] == 1 and v["violations"] > 0]
         matrix[label] = row
-        json.dump(matrix, open(out_path, "w"), indent=1, sort_keys=True)
+        # several instances (different scratch worktrees) may run side by side: merge under a lock
+        import fcntl
+        with open(out_path + ".lock", "w") as lk:
+            fcntl.flock(lk, fcntl.LOCK_EX)
+            cur = json.load(open(out_path)) if os.path.exists(out_path) else {}
+            cur[label] = row
+            tmp = out_path + ".tmp.%d" % os.getpid()
+            json.dump(cur, open(tmp, "w"), indent=1, sort_keys=True)
+            os.replace(tmp, out_path)
+            matrix = cur
     print(json.dumps({k: v.get("detected_by", v.get("error")) for k, v in matrix.items()}, indent=1))
     if not os.environ.get("MATRIX_KEEP"):
         sh("git", "-C", "/repo", "worktree", "remove", "--force", REPO)
